@@ -467,6 +467,7 @@ class IArr:
         s.kind = kind
         s._base, s._tobase, s._frombase = base, tobase, frombase
         s.contig = contig
+        s._version = 0
 
     # ---- structure
     shape = property(lambda s: s._shape)
@@ -506,7 +507,11 @@ class IArr:
         g, m = s._base.snapshot(), s._tobase
         return lambda *idx: g(*m(*idx))
 
+    def version(s):
+        return s._version if s._base is None else s._base.version()
+
     def _setf(s, newf):
+        s._version += 1
         if s._base is None:
             s._f = newf
         else:
@@ -947,7 +952,7 @@ class SetArr(IArr):
     __radd__ = __add__
 
 
-def newset(stem, mem, lo=None, hi=None, length=None):
+def newset(stem, mem, lo=None, hi=None, length=None, triggers=()):
     """fresh sorted set {v : mem(v)} (mem must imply lo <= v < hi when bounds are given): A1-A3"""
     nm = CTX.fresh(stem)
     L = SZ.sym("n_" + nm, 0) if length is None else length
@@ -957,7 +962,7 @@ def newset(stem, mem, lo=None, hi=None, length=None):
     Lz = zdim(L)
     memv = _as_bool(mem(v))
     CTX.axioms.append(z3.ForAll([j], z3.Implies(z3.And(j >= 0, j < Lz), z3.And(_as_bool(mem(e(j))), r(e(j)) == j)), patterns=[e(j)]))
-    CTX.axioms.append(z3.ForAll([v], z3.Implies(memv, z3.And(r(v) >= 0, r(v) < Lz, e(r(v)) == v)), patterns=[r(v)]))
+    CTX.axioms.append(z3.ForAll([v], z3.Implies(memv, z3.And(r(v) >= 0, r(v) < Lz, e(r(v)) == v)), patterns=[r(v)] + [t(v) for t in triggers]))
     CTX.axioms.append(z3.ForAll([j, j2], z3.Implies(z3.And(j >= 0, j < j2, j2 < Lz), e(j) < e(j2)), patterns=[z3.MultiPattern(e(j), e(j2))]))
     if lo is not None and hi is not None and length is None:
         CTX.basic.append(Lz <= zdim(hi) - zdim(lo))  # a strictly increasing sequence inside [lo, hi)
@@ -972,10 +977,10 @@ def occurs(a, v):
     if isinstance(a, _np.ndarray):
         return Or(*[eq(x, v) for x in a.reshape(-1).tolist()])
     parts = getattr(a, "_parts", None)
-    if parts is not None:
-        return Or(*[occurs(p, v) for p in parts])
+    if parts is not None and a.version() == a._parts_version and all(p.version() == ver for p, ver in parts):
+        return Or(*[occurs(p, v) for p, _ in parts])
     if a._base is not None and a._frombase is not None:
-        return occurs(a._base, v)
+        return occurs(a._base, v)  # reshape / ravel / transpose views hold the same elements
     # generic: concrete axes expanded, symbolic axes bound by an existential
     g = a.snapshot()
     ks, rng, idx = [], [], []
@@ -1262,7 +1267,15 @@ def _concatenate(arrs, axis=0, **kw):
         return part(0)
 
     out = IArr((starts[-1],), f, kind)
-    out._parts = [x if isinstance(x, SetArr) else IArr(x._shape, g, x.kind) for x, g in zip(arrs, gs)]
+    # for `occurs`: the concatenation contains exactly the elements of its parts (valid while they are unchanged)
+    parts = []
+    for x in arrs:
+        sub = getattr(x, "_parts", None)
+        if sub is not None and all(p.version() == ver for p, ver in sub) and x.version() == getattr(x, "_parts_version", -1):
+            parts += sub
+        else:
+            parts.append((x, x.version()))
+    out._parts, out._parts_version = parts, out.version()
     return out
 
 
@@ -1611,7 +1624,23 @@ class Sym:
         """arbitrary strictly increasing integer array with entries in [0, universe)"""
         p = z3.Function("in_" + name, z3.IntSort(), z3.BoolSort())
         u = zdim(universe)
-        return newset(name, lambda v: And(v >= 0, v < u, p(v)), 0, universe)
+        return newset(name, lambda v: And(v >= 0, v < u, p(v)), 0, universe, triggers=[p])
+
+    def derived_set(s, name, mem, universe, length=None):
+        """the sorted set {v in [0, universe) : mem(v)} (spec-side construction of stub inputs)"""
+        u = zdim(universe)
+        return newset(name, lambda v: And(v >= 0, v < u, mem(v)), 0, universe, length=length)
+
+    def assume_forall(s, ranges, body):
+        """assumed fact about declared inputs (callee postconditions): forall indices in range: body"""
+        vs = [z3.Int(f"{nm}!a{CTX.fresh('')}") for nm, _ in ranges]
+        rng = []
+        for v, (nm, hi) in zip(vs, ranges):
+            lo = 0
+            if isinstance(hi, tuple):
+                lo, hi = hi
+            rng += [v >= zdim(lo), v < zdim(hi)]
+        CTX.axioms.append(z3.ForAll(vs, z3.Implies(z3.And(*rng), Z(body(*vs)))))
 
     def scope(s):
         """start a fresh sub-configuration: forget the assumptions / inputs of the previous one"""
@@ -1750,6 +1779,17 @@ class Nat:
         a = _np.array([k for k in range(universe) if s.rng.random() < 0.5], dtype=int)
         s.inputs[name] = a.tolist()
         return a
+
+    def derived_set(s, name, mem, universe, length=None):
+        a = _np.array([v for v in range(int(universe)) if mem(v)], dtype=int)
+        if length is not None and len(a) != length:
+            raise AssertionError("derived_set: declared length is wrong")
+        return a
+
+    def assume_forall(s, ranges, body):
+        rs = [range(int(hi[0]), int(hi[1])) if isinstance(hi, tuple) else range(int(hi)) for _, hi in ranges]
+        if not all(body(*idx) for idx in itertools.product(*rs)):
+            raise AssertionError("assume_forall: the assumed fact does not hold for the native stub input")
 
     def scope(s):
         s.inputs.clear()
